@@ -451,6 +451,8 @@ class SymFS(object):
         if e["dir"]:
             I.raise_(IsADirectoryError(21, "Is a directory", path))
         self.opens.append(p)
+        if not isinstance(e["content"], str):
+            return SymIO(e["content"])          # a document with symbolic leaves
         return io.StringIO(e["content"])
 
 
@@ -474,6 +476,8 @@ def _urlopen_model(I, args, kwargs):
     if e is None or not I.decide(fs.term(e)):
         I.raise_(_urlerr.HTTPError(url, 404, "File not found", None, None))
     fs.opens.append(p)
+    if not e["dir"] and not isinstance(e["content"], str):
+        return SymIO(e["content"])          # a document with symbolic leaves
     return io.StringIO("<directory listing>" if e["dir"] else e["content"])
 
 
